@@ -108,7 +108,7 @@ def build(sub, a, b, fmt):
     if sub == "glb_image_bomb":
         return glb_image_bomb([2000, 5000, 8000][a % 3])
     if sub == "3mf_chain":
-        return threemf_chain(4 + a % 11, 2)
+        return threemf_chain(4 + a % 9, 2)
     if sub == "3mf_chain_deep":
         return threemf_chain(17 + a % 8, 3)
     if sub == "obj_same_names":
